@@ -65,4 +65,64 @@ def shutsDown (t : Tally) : Bool := !(t.matching ≥ t.responses / 2 + 1)
 def resolve (decode : Decoder) (addr : Bytes) (port : Nat) (rs : List Bytes) : Bool :=
   shutsDown (tally decode addr port rs)
 
+/-! ### The loop with its decode target made explicit
+
+`resolveNodeConflict` decodes each reply into `var member Member`.  msgpack assigns only the fields
+present in the reply, so what a reply "decodes to" depends on what the variable held before.  The
+decoder is therefore a function of the previous contents; `fresh = true` (the declaration sits inside
+the loop: regenerated fact `Gen.ConflictVote.shape.memberFresh`) starts every reply from a zero Member. -/
+
+/-- The address fields of the decode target. -/
+structure MemberVar where
+  addr : Bytes := []
+  port : Nat := 0
+  deriving DecidableEq, Repr, Inhabited
+
+/-- previous contents ↦ bytes after the type byte ↦ `none` (decode error) or the new contents -/
+abbrev DecoderInto := MemberVar → Bytes → Option MemberVar
+
+def countInto (fresh : Bool) (dec : DecoderInto) (addr : Bytes) (port : Nat)
+    (st : Tally × MemberVar) (payload : Bytes) : Tally × MemberVar :=
+  match payload with
+  | [] => st
+  | t :: rest =>
+    if t == conflictResponseType then
+      let start : MemberVar := if fresh then {} else st.2
+      match dec start rest with
+      | none => (st.1, start)
+      | some m =>
+        ({ responses := st.1.responses + 1,
+           matching := if ipEqual m.addr addr && m.port == port then st.1.matching + 1 else st.1.matching }, m)
+    else st
+
+def tallyInto (fresh : Bool) (dec : DecoderInto) (addr : Bytes) (port : Nat) (rs : List Bytes) : Tally :=
+  (rs.foldl (countInto fresh dec addr port) ({}, {})).1
+
+/-- With a fresh target per reply the stateful decoder is an ordinary one (a zero Member has a nil
+address and port 0, exactly what `mine none` tests). -/
+def DecoderInto.fromZero (dec : DecoderInto) : Decoder := fun b =>
+  (dec {} b).map fun m => some ⟨m.addr, m.port⟩
+
+/-- Shape of the vote as written (regenerated: `SerfModel.Gen.ConflictVote.shape`). -/
+structure VoteShape where
+  /-- classified statements of the loop body, in order -/
+  order : List String
+  /-- `var member Member` is declared inside the loop body -/
+  memberFresh : Bool
+  /-- condition of `matching++` -/
+  matchTest : String
+  /-- `if matching <op> majority { return }` -/
+  surviveOp : String
+  /-- `s.Shutdown()` follows -/
+  shutdownAfter : Bool
+  deriving DecidableEq, Repr
+
+/-- The shape `count` / `shutsDown` transcribe. -/
+def VoteShape.asModelled (v : VoteShape) : Bool :=
+  v.order == ["typeCheck", "declMember", "decode", "countResponse", "countMatching"] && v.memberFresh &&
+  v.matchTest == "member.Addr.Equal(local.Addr) && member.Port == local.Port" && v.surviveOp == ">=" && v.shutdownAfter
+
+/-- The decision with the majority function as a parameter. -/
+def shutsDownG (majority : Nat → Nat) (t : Tally) : Bool := !(t.matching ≥ majority t.responses)
+
 end SerfModel.Conflict
